@@ -20,7 +20,7 @@ EXPLANATION = (
     "`with` semantics then cover every failure point of every script and provider; R12.2 no other state survives a run: no function "
     "reachable from the evaluator mutates a module-level object, a class-level mutable attribute, a default-argument object or an "
     "imported third-party table, provider fields mutated during a run are exactly those the deregistration clears, the analyzer is a "
-    "fresh local object per evaluation, import-time patches of sqlparse run at import only; R12.4 the evaluated flag is set only as the "
+    "fresh local object per evaluation, import-time patches of sqlparse run at import only; R12.5 the provider look-up keeps no memory and never mutates in place what the source or the session store returned (= R13.5); R12.4 the evaluated flag is set only as the "
     "last step of a successful evaluation. Does not decide: interference through a provider object the user shares between threads, "
     "sqlfluff/sqlparse internal caches."
 )
@@ -330,6 +330,8 @@ def rules(ctx: Ctx) -> None:
 
     # ---- R12.4 -------------------------------------------------------------------------------
     common.flag_rule(ctx, R, "R12.4")
+    # ---- R12.5 the provider look-up keeps no memory and does not change what its source handed out (= R13.5) ------------------------
+    common.import_rules(ctx, "C13", {"R13.5": "R12.5"})
 
 
 def _stores_objects(prog: Prog, fn: Fn, st: ast.stmt) -> Optional[str]:
